@@ -41,7 +41,7 @@ func tErr(err error) int {
 	return 5
 }
 
-// verif:harness props=C03,C04 tprops=C02,C12 tier=quick weight=300
+// verif:harness props=C03,C04 tier=quick weight=300 tonly=C03
 // verif:bounds two CONCURRENT store operations on one SQLiteStore over the SQL model (single pooled connection, modelled as a blocking resource; interleaved at every mutex and connection acquisition): thread A = Dequeue(batch 1), thread B = one of Dequeue(batch 1|2), Ack, Cancel by id (thorough adds Nack, MarkDead, Extend, Requeue by id, Enqueue); N=2 rows in state queued/leased (thorough: also canceled) with arbitrary timestamps; the outcome (both results and the final table, generated lease ids aside) must equal the outcome of running the two operations one after the other in one of the two orders on the same initial table
 func VerifC03SQLConcurrentOps() {
 	vrt.SQLModel()
